@@ -253,6 +253,33 @@ def generate(rng, tier):
         hs = [rng.choice(atoms) for _ in range(ln)]
         phi = X(1) if rng.random() < 0.7 else rng.choice([CONST(1), CONST(0), [[1, []], [-1, [1]]], X(2), CONST(2)])
         yield {"calls": [_clique_call(tau, hs, phi)]}
+    # histories on the equations: same tau / same n asked again with other H values, other phi, the same
+    # arguments again (memoisation keyed too coarsely), one shared Hs list object edited in place
+    atoms = [X(2), X(3), X(4), X(5), CONST(1), CONST(0), CONST(2), [[1, [0, 1]], [-1, [0, 0, 1]]]]
+    phis = [X(1), X(1), CONST(1), [[1, []], [-1, [1]]], X(2)]
+    for _ in range(40 if thorough else 12):
+        tau = rng.randint(2, 5)
+        calls = []
+        for _step in range(rng.randint(3, 6)):
+            hs = [rng.choice(atoms) for _ in range(tau - 1)]
+            calls.append(_clique_call(tau, hs, rng.choice(phis)))
+            if rng.random() < 0.3:
+                calls.append(_clique_call(tau, hs[::-1], calls[-1][2]))
+            if rng.random() < 0.3:
+                calls.append(list(calls[rng.randrange(len(calls))]))
+            if rng.random() < 0.25:
+                tau = rng.randint(2, 5)
+        yield {"calls": calls}
+    for _ in range(20 if thorough else 6):
+        n = rng.randint(3, 8)
+        calls = []
+        for _step in range(rng.randint(3, 6)):
+            calls.append(["cycle", n, rng.choice([X(2), CONST(1), X(3), CONST(0), X(1)]), rng.choice(phis)])
+            if rng.random() < 0.3:
+                calls.append(list(calls[rng.randrange(len(calls))]))
+            if rng.random() < 0.25:
+                n = rng.randint(3, 8)
+        yield {"calls": calls}
     # ---- cycle equation
     cmax = 16 if thorough else 12
     yield {"calls": [["cycle", n, X(2), X(1)] for n in range(0, cmax + 1)]}
@@ -317,14 +344,22 @@ def _snapshot(G, ak):
 
 
 def impl(case):
+    import importlib
+    import sys
     import networkx as nx
-    import gcmpy.message_passing.number_connected_graphs as ncgmod
-    from gcmpy.message_passing.equations.clique_equation import clique_equation
-    from gcmpy.message_passing.equations.chordless_cycle_equation import chordless_cycle_equation
-    for name in dir(ncgmod):
-        f = getattr(ncgmod, name, None)
-        if callable(getattr(f, "cache_clear", None)):
-            f.cache_clear()
+    import gcmpy.message_passing.number_connected_graphs  # noqa: F401
+    import gcmpy.message_passing.equations.clique_equation  # noqa: F401
+    import gcmpy.message_passing.equations.chordless_cycle_equation  # noqa: F401
+    # every case starts from a fresh interpreter state of the three anchored modules (lru_caches and any other
+    # module-level memo are gone), so a case is reproducible in isolation; WITHIN the case the state persists
+    mods = []
+    for name in ("gcmpy.message_passing.number_connected_graphs",
+                 "gcmpy.message_passing.equations.clique_equation",
+                 "gcmpy.message_passing.equations.chordless_cycle_equation"):
+        mods.append(importlib.reload(sys.modules[name]))
+    ncgmod = mods[0]
+    clique_equation = mods[1].clique_equation
+    chordless_cycle_equation = mods[2].chordless_cycle_equation
     graphs = {}
     hs_obj = []          # ONE list object for the Hs argument of every clique call of the case
     out = []
